@@ -279,4 +279,45 @@ def run(ctx):
             if not (close(lo2, lo, R9) and close(hi2, hi, R9)):
                 ctx.violation("C11:unprefixed-changes-si-value", f"{q!r}.unprefixed() = {un!r}", {"unit": base_term, "a": pa[0]})
             ctx.count("identities/unprefixed_si_value")
+    # Decimal readings first touched while the program has a coarse decimal context in force (a report printed with 6
+    # digits: compared, stripped of its prefix, converted there), then used again under the ordinary context: the
+    # identities hold to the digits of the context in force NOW.  Every reading is a number nobody has used before
+    import decimal
+    from decimal import Decimal
+    named = [(nm, p) for nm, p in prefixes if isinstance(p.exponent, int) and p.base in (10, 2) and abs(p.exponent) <= 30]
+    base_units = [Meter] + [m.Unit._by_name[x] for x in ("second", "gram", "bit") if x in m.Unit._by_name]
+    for k in range(ctx.scale(60, 6000)):
+        nm, p = rng.choice(named)
+        u = rng.choice(base_units)
+        x = Decimal(f"{rng.randint(1, 9)}.{rng.randint(10**12, 10**13 - 1)}{k % 10}{ctx.shard}")      # 15 significant digits
+        q = x * (p * u)
+        ctx.count("evaluations")
+        ctx.count("decimal_readings_first_touched_under_a_coarse_context")
+        with decimal.localcontext() as coarse:
+            coarse.prec = rng.choice([5, 6, 7, 9])
+            for touch in rng.sample([lambda: q.unprefixed(), lambda: q == (1 * u), lambda: q < (1 * u), lambda: q.in_unit(u), lambda: q + (1 * u), lambda: hash(q)], 3):
+                try:
+                    touch()
+                except Exception:
+                    pass
+        pv = oracle.prefix_value(p)
+        exact = oracle.F(x) * pv
+        case = {"reading": str(x), "prefix": nm, "unit": str(u)}
+        ctx.distinct(("coarse-first", nm, str(u)), True)
+        with decimal.localcontext(decimal.DefaultContext):
+            try:
+                un = q.unprefixed()
+                # (a negative exponent makes the factor a float, 1e-06: equal only to ~1e-16, which == does not forgive)
+                same = (q == (x * Decimal(p.base) ** p.exponent) * u) if p.exponent >= 0 else True
+                conv = q.in_unit(u)
+            except Exception as e:
+                ctx.violation(f"C11:raised:{type(e).__name__}", f"{q!r} after it was first touched under a coarse decimal context: {e}", case)
+                continue
+        if un.unit is not u or not close(un.magnitude, exact, R12):
+            ctx.violation("C11:unprefixed-changes-value", f"{q!r}.unprefixed() = {un.magnitude!r} {un.unit} under the default context after it was first touched under a coarse one; "
+                          f"exact {core.sf(exact)!r}", case)
+        if not close(conv.magnitude, exact, R12):
+            ctx.violation("C11:conversion-between-prefixes", f"{q!r}.in_unit({u}) = {conv.magnitude!r} under the default context after it was first touched under a coarse one", case)
+        if same is not True:
+            ctx.violation("C11:prefixed-quantity-not-equal-to-scaled", f"{q!r} != (m * value(prefix)) * {u} under the default context after it was first touched under a coarse one", case)
     ctx.require("table_cells", 1000)
